@@ -64,9 +64,28 @@ def cells(lst):
     return {(float(c[0]), num(c[1]), float(c[2])): num(c[3]) for c in lst}
 
 
-def compare(exp, got):
-    """returns list of (site, message)"""
+def _near(a, b):
+    return abs(a - b) <= 1e-6 * max(1.0, abs(a), abs(b))
+
+
+def _rekey(levels, d):
+    """match float32-rounded level keys of d to the exact expected levels"""
+    out = {}
+    for lv in levels:
+        for k in d:
+            if _near(lv, k):
+                out[lv] = d[k]
+    return out
+
+
+def compare(exp, got, ordered=True, rtol=1e-9):
+    """returns list of (site, message). ordered=False: dimension lists are compared as sorted lists (a NetCDF input keeps
+    the file's own order; the order of an Input's dimension lists is not part of any property)"""
     bad = []
+    if not ordered:
+        got = dict(got)
+        got["times"] = sorted(got["times"])
+        got["leads"] = sorted(got["leads"])
     if [float(t) for t in exp["times"]] != got["times"]:
         bad.append(("text:times", "times: expected %r observed %r" % (exp["times"], got["times"])))
     if [num(x) for x in exp["leads"]] != got["leads"]:
@@ -84,7 +103,7 @@ def compare(exp, got):
             bad.append((site, "%s: present cells differ: only expected %r, only observed %r" % (name, sorted(set(e) - set(g))[:4], sorted(set(g) - set(e))[:4])))
             return
         for key in e:
-            if not close(e[key], g[key]):
+            if not close(e[key], g[key], rtol):
                 bad.append((site, "%s at (time, lead, id)=%r: expected %r observed %r" % (name, key, e[key], g[key])))
                 return
     for f in ("obs", "fcst", "pit"):
@@ -96,6 +115,10 @@ def compare(exp, got):
     for key, levels, gkey in (("cdf", "thresholds", "cdf"), ("x", "quantiles", "x"), ("ens", "members", "ens")):
         elev = sorted(num(v) for v in exp[levels])
         glev = sorted(got[gkey])
+        if len(elev) == len(glev) and all(_near(a, b) for a, b in zip(elev, glev)):
+            got = dict(got)
+            got[gkey] = _rekey(elev, got[gkey])
+            glev = elev
         if elev != glev:
             bad.append(("text:" + levels, "%s: expected %r observed %r" % (levels, elev, glev)))
             continue
